@@ -47,6 +47,7 @@ type Universe struct {
 	Stateless []string    `json:"stateless,omitempty"` // custom operators listed as stateless
 	RegMode   int         `json:"reg_mode,omitempty"`
 	KeyBase   int         `json:"key_base,omitempty"`
+	KeyStride int         `json:"key_stride,omitempty"` // explicit keys are KeyBase + i*KeyStride (0 means 1)
 }
 
 func (u *Universe) Var(name string) *VarDecl {
@@ -373,8 +374,12 @@ func registerPure(cc *eval.Config) {
 func registerVars(cc *eval.Config, u *Universe) {
 	switch u.RegMode {
 	case RegExplicit:
+		stride := u.KeyStride
+		if stride == 0 {
+			stride = 1
+		}
 		for i, v := range u.Vars {
-			cc.VariableKeyMap[v.Name] = eval.VariableKey(u.KeyBase + i)
+			cc.VariableKeyMap[v.Name] = eval.VariableKey(u.KeyBase + i*stride)
 		}
 	case RegGetOrReg:
 		for _, v := range u.Vars {
